@@ -551,7 +551,8 @@ class PixelIsland(object):
         cmin, cmax = np.where(ndcol)[0][[0, -1]]
         self.bounding_box[0][0] = offsets[0] + cmin
         self.bounding_box[0][1] = offsets[0] + cmax + 1
-        self.set_mask(data[rmin:rmax+1, cmin:cmax+1])
+        # rmin/rmax index the second axis and cmin/cmax the first
+        self.set_mask(data[cmin:cmax+1, rmin:rmax+1])
         return
 
 
